@@ -412,6 +412,65 @@ let handle05_qi (rest : string list) : string =
        | _ -> "bad row")
   | _ -> "bad line"
 
+
+(* ---- T: typed histories (a column changes its Go type from row to row) ----
+   T <hexsql> # <query> # <i> <carriers of rows 0..i> # <row> # <used> # <async> # <fresh>
+   used  = the row's result on the stream that has seen rows 0..i-1, async = what the synchronous sink got
+   for it, fresh = the row alone, its items spelled with i+1 further pairs of parentheses (a text no
+   other row was evaluated with).  direct is history-free (C05_history_free) and blind to the extra
+   parentheses (C05_item_extra_parens): all three must be direct q row. *)
+let handle05_t (rest : string list) : string =
+  match Win.split_hash rest with
+  | [ _; qenc; [ i; hist ]; rowt; used; async; fresh ] ->
+      let q = p_query qenc in let row = parse_row rowt in
+      let d = direct q row in
+      let sh l = String.concat " " l in
+      let model () = (match d with DNone -> "none" | DRow r -> "row " ^ show_row r | DUnm -> "unmodelled") in
+      let where = " row=" ^ i ^ " carriers_so_far=" ^ hist in
+      if used = fresh && async = fresh then
+        (match cmp_direct d fresh, fresh with
+         | DDiffer m, _ -> "diff direct " ^ m
+         | DSame, "row" :: _ -> "ok nt"
+         | _, _ -> "ok")
+      else if used <> fresh then
+        (match cmp_direct d fresh, cmp_direct d used with
+         | DDiffer m, DSame -> "diff direct (the spelling with extra parentheses) " ^ m ^ " fresh=" ^ sh fresh
+         | _, _ -> "chk history_dependent typed" ^ where ^ " after_history=" ^ sh used ^ " without_history=" ^ sh fresh ^ " model=" ^ model ())
+      else
+        "chk sync_async_differ typed" ^ where ^ " sync=" ^ sh used ^ " sink=" ^ sh async ^ " model=" ^ model ()
+  | _ -> "bad line"
+
+(* ---- D: one producer, overflow strategy drop (Model/LossyFifo.v) ----
+   D <hexsql> # <query> # <n> <dropped> <cap> <sink pause us> 0 # row (x n) # sink result (x k)
+   the ids the sink got are a subsequence of the emission order (rc_check, C05_drop_passes_checker);
+   then the X clauses: every delivered result is the model's, nothing is missing unless rows were dropped *)
+let handle05_d (rest : string list) : string =
+  match Win.split_hash rest with
+  | _ :: _ :: [ n; dropped; cap; _; _ ] :: secs ->
+      let n = int_of_string n in
+      let (rowsecs, ressecs) = take_n n secs in
+      let sent = List.map (fun sec -> match xlookup (parse_row sec) id_key with
+        | Some (VNum q) -> q.qnum | _ -> failwith "row without id") rowsecs in
+      let seen = List.map (fun sec -> match sec with
+        | "row" :: kvs -> (match zid_of_cells kvs with Some z -> z | None -> failwith "sink result without id")
+        | _ -> failwith "bad sink section") ressecs in
+      let tag = "drop cap=" ^ cap ^ " emitted=" ^ string_of_int n ^ " dropped=" ^ dropped ^ " delivered=" ^ string_of_int (List.length seen) in
+      let around x = (* the neighbourhood of the offending id in what the sink saw *)
+        let rec go before = function
+          | [] -> []
+          | y :: r -> if y = x && List.length before > 0 then
+                        (let rec firstn k = function [] -> [] | a :: b -> if k = 0 then [] else a :: firstn (k - 1) b in
+                         List.rev (firstn 4 before) @ (y :: firstn 3 r))
+                      else go (y :: before) r in
+        show_zs (go [] seen) in
+      (match rc_check sent seen with
+       | RCUnknown x -> "chk sync_async_differ " ^ tag ^ " the sink got id=" ^ show_z x ^ ", which no emitted row has"
+       | RCTwice x -> "chk sync_async_differ " ^ tag ^ " id=" ^ show_z x ^ " delivered twice"
+       | RCOrder (x, p) -> "chk producer_order " ^ tag ^ " the result of id=" ^ show_z x ^ " reached the sink after the result of id=" ^ show_z p
+                           ^ " (emitted later, or the same again); sink saw .. " ^ around x ^ " .."
+       | RCOk -> handle05_x "drop" rest)
+  | _ -> "bad line"
+
 let handle05c (toks : string list) : string =
   match toks with
   | "P" :: rest -> handle_p rest
@@ -419,6 +478,8 @@ let handle05c (toks : string list) : string =
   | "S" :: rest -> handle05_s rest
   | "QI" :: rest -> handle05_qi rest
   | "QR" :: _ -> "ok"
+  | "T" :: rest -> handle05_t rest
+  | "D" :: rest -> handle05_d rest
   | "R" :: mode :: _ :: rest -> handle05_r mode rest
   | "W" :: hf :: _ :: rest -> handle05_w hf rest
   | _ -> handle05 toks
